@@ -10,6 +10,7 @@ CONSTANTS
  KeepParent = FALSE
  AliasArgs = {}
  MergeInPlace = FALSE
+ EagerParent = FALSE
 SPECIFICATION Spec
 VIEW StructView
 CONSTRAINT LevelBound
